@@ -48,6 +48,27 @@ func (pc *proofChecker) content(n *provenance.ProofNode) string {
 	return sb.String()
 }
 
+// renderProof prints a proof compactly (for violation messages).
+func renderProof(n *provenance.ProofNode, indent string, seen map[*provenance.ProofNode]bool, sb *strings.Builder) {
+	mark := ""
+	if n.Partial {
+		mark = " [partial]"
+	}
+	kind := []string{"EDB", "derived", "absent", "let", "do"}[n.Kind]
+	rule := ""
+	if n.Rule != nil {
+		rule = "  by " + n.Rule.String()
+	}
+	fmt.Fprintf(sb, "%s%v (%s)%s%s\n", indent, n.Fact, kind, mark, rule)
+	if seen[n] {
+		return
+	}
+	seen[n] = true
+	for _, p := range n.Premises {
+		renderProof(p, indent+"  ", seen, sb)
+	}
+}
+
 func complete(n *provenance.ProofNode) bool {
 	if n.Partial {
 		return false
@@ -342,14 +363,18 @@ func runC15(r *simrt.Run, tier Tier) Outcome {
 			if !anyComplete {
 				incomplete++
 				if !recordedMode || !hasTransforms {
-					return Violation("C15/no-complete-proof", "stored fact %v of a transform-free program has only partial proofs (mode %s)\n%s", g, mode, ctx)
+					var sb strings.Builder
+					for _, p := range proofs {
+						renderProof(p, "  ", map[*provenance.ProofNode]bool{}, &sb)
+					}
+					return Violation("C15/no-complete-proof", "stored fact %v of a transform-free program has only partial proofs (mode %s)\n%s%s", g, mode, sb.String(), ctx)
 				}
 			}
 		}
 	}
 	derived := 0
 	for k := range facts {
-		if strings.HasPrefix(k, "p") {
+		if strings.HasPrefix(k, "p") || strings.HasPrefix(k, "g") {
 			derived++
 		}
 	}
